@@ -179,13 +179,13 @@ func Open(disk bool, dir string, logSize, maxSize int64) *Chan {
 
 // StopWriter closes the feeding side (the source connection goes away).
 func (c *Chan) StopWriter() {
-	if c.pw != nil {
-		c.pw.Close()
-		c.pw = nil
-	}
 	if c.aofW != nil {
 		c.aofW.Close()
 		c.aofW = nil
+	}
+	if c.pw != nil {
+		c.pw.Close()
+		c.pw = nil
 	}
 }
 
@@ -221,6 +221,12 @@ func (c *Chan) WriteRdb(lin int, off, size int64, upTo int64) string {
 
 // StartAof attaches a log writer at offset off.
 func (c *Chan) StartAof(off int64) string {
+	// the callers stop the previous writer (Close, which finishes its file synchronously) before they
+	// create the next one; only then does the old source connection go away
+	if c.aofW != nil {
+		c.aofW.Close()
+		c.aofW = nil
+	}
 	if c.pw != nil {
 		c.pw.Close()
 		c.pw = nil
